@@ -348,10 +348,12 @@ def run(ctx):
     def report(sig, what, replay_d):
         nonlocal n_viol
         if sig == "tie":
-            ctx.tie_broken("harness anomaly", what)
+            reported["tie"] = reported.get("tie", 0) + 1
+            if reported["tie"] <= 2:
+                ctx.tie_broken("harness anomaly", what)
             return
         n_viol += 1
-        if reported.get(sig, 0) < 2:
+        if reported.get(sig, 0) < 2 and len(reported) < 6:
             reported[sig] = reported.get(sig, 0) + 1
             ctx.violation(sig, what, replay_d)
 
